@@ -10,7 +10,7 @@
           granularity: outer loop (no server held) and transaction loop (server
           held), the [plugin_output] variable, the extended-protocol buffer and the
           client's prepared-statement map.
-    The code modelled is the tree AFTER the repairs e792aa5 / bd15113 / 32c91f8 / a7d476c.
+    The code modelled is the tree AFTER the repairs e792aa5 / bd15113 / 32c91f8 / a7d476c / 0acefb2 / f56a2eb / 80b6794 / 3943b22 / b98e532.
     Proofs are in Proofs.v, the PostgreSQL-side specification in Spec.v. *)
 From Coq Require Import ZArith NArith List Bool Lia.
 Import ListNotations.
@@ -38,33 +38,29 @@ Definition lower_ascii (b : byte) : byte := if is_upper b then (b + 32)%N else b
 Definition is_ascii (b : byte) : bool := (b <? 128)%N.
 Definition ascii_bytes (s : bytes) : bool := forallb is_ascii s.
 
-(** Rust [str::to_lowercase] on the UTF-8 bytes of the identifier.  EXACT for ASCII and
-    for the two-byte sequences of the Latin-1 Supplement (U+00C0..U+00DE except U+00D7:
-    bytes C3 80..C3 9E except C3 97, lower case = second byte + 0x20); every other
-    multi-byte sequence is left unchanged here, which is NOT what Rust does for other
-    cased scripts (Greek, Cyrillic, ...): the model is only claimed on identifiers made
-    of ASCII and Latin-1 letters, the theorems only on ASCII ones. *)
-Fixpoint rust_lower (s : bytes) : bytes :=
-  match s with
-  | [] => []
-  | c :: r =>
-      if (c =? 195)%N then
-        match r with
-        | b :: r' =>
-            if ((128 <=? b)%N && (b <=? 158)%N && negb (b =? 151)%N)%bool
-            then c :: (b + 32)%N :: rust_lower r'
-            else c :: b :: rust_lower r'
-        | [] => [c]
-        end
-      else lower_ascii c :: rust_lower r
+(** Rust [str::to_ascii_lowercase] on the UTF-8 bytes of the identifier (3943b22): only
+    A-Z change; exact for every string. *)
+Definition rust_lower (s : bytes) : bytes := map lower_ascii s.
+
+(** [str::is_char_boundary(i)] for 0 < i < len: the byte at i is not a UTF-8 continuation
+    byte (10xxxxxx); index 0 and len are boundaries ([nth] default 0 is not one). *)
+Definition is_cont (b : byte) : bool := (128 <=? b)%N && (b <? 192)%N.
+Fixpoint backoff (k : nat) (s : bytes) : nat :=
+  match k with
+  | O => O
+  | S k' => if is_cont (nth k s 0%N) then backoff k' s else k
   end.
+(** table_access.rs truncate_identifier: [end = min(len, 63); while !is_char_boundary(end)
+    { end -= 1 }; name[..end]] *)
+Definition clip63 (s : bytes) : bytes := firstn (backoff (Nat.min (length s) 63) s) s.
 
 (** table_access.rs [check]: last identifier of the object name; quoted => verbatim,
-    otherwise [to_lowercase()]; [None] for an empty object name. *)
+    otherwise [to_ascii_lowercase()]; either way clipped to 63 bytes; [None] for an empty
+    object name. *)
 Definition table_name (nm : objname) : option bytes :=
   match rev nm with
   | [] => None
-  | i :: _ => Some (if quoted i then text i else rust_lower (text i))
+  | i :: _ => Some (clip63 (if quoted i then text i else rust_lower (text i)))
   end.
 
 Definition mem (t : bytes) (l : list bytes) : bool := existsb (bytes_eqb t) l.
@@ -188,10 +184,14 @@ Definition subst (user db c : bytes) : bytes := replace s_database db (replace s
     list is given in that order). *)
 Record rule := mkRule { r_query : bytes; r_schema : list (list bytes); r_result : list (list bytes) }.
 
-(** [let name = &row[0]; let data_type = &row[1];] — indexing panics on a schema entry
-    with fewer than two strings. *)
-Definition schema_col (row : list bytes) : option (bytes * bytes) :=
-  match row with n :: t :: _ => Some (n, t) | _ => None end.
+(** [row.first()] / [row.get(1)] with empty-string defaults (b98e532): a schema entry with
+    fewer than two strings gives an empty name / the type Any; nothing panics. *)
+Definition schema_col (row : list bytes) : bytes * bytes :=
+  match row with
+  | n :: t :: _ => (n, t)
+  | [n] => (n, [])
+  | [] => ([], [])
+  end.
 
 Fixpoint map_opt {A B} (f : A -> option B) (l : list A) : option (list B) :=
   match l with
@@ -207,14 +207,10 @@ Definition rule_rows (user db : bytes) (r : rule) : list (list (option bytes)) :
   map (map (cell_of user db)) (r_result r).
 
 (** reply for ONE matching rule: RowDescription, one DataRow per configured row,
-    CommandComplete SELECT.  [None] = the task panics (short schema entry). *)
-Definition rule_reply (user db : bytes) (r : rule) : option bytes :=
-  match map_opt schema_col (r_schema r) with
-  | None => None
-  | Some cols =>
-      Some (row_description cols ++ concat (map data_row_nullable (rule_rows user db r))
-            ++ command_complete s_select)
-  end.
+    CommandComplete SELECT. *)
+Definition rule_reply (user db : bytes) (r : rule) : bytes :=
+  row_description (map schema_col (r_schema r)) ++ concat (map data_row_nullable (rule_rows user db r))
+  ++ command_complete s_select.
 
 Definition ascii_lower (s : bytes) : bytes := map lower_ascii s.   (* to_ascii_lowercase *)
 
@@ -223,18 +219,11 @@ Definition ascii_lower (s : bytes) : bytes := map lower_ascii s.   (* to_ascii_l
 Definition rule_matches (q : bytes) (r : rule) : bool :=
   bytes_eqb (ascii_lower (r_query r)) (ascii_lower q).
 
-Fixpoint concat_opt (l : list (option bytes)) : option bytes :=
-  match l with
-  | [] => Some []
-  | None :: _ => None
-  | Some b :: r => match concat_opt r with Some bs => Some (b ++ bs) | None => None end
-  end.
-
 (** for q in ast { for (_, target) in queries { if target.query == q { ... } } } *)
-Definition intercept_body (user db : bytes) (rules : list rule) (stmts : list bytes) : option bytes :=
-  concat_opt (flat_map (fun q => map (rule_reply user db) (filter (rule_matches q) rules)) stmts).
+Definition intercept_body (user db : bytes) (rules : list rule) (stmts : list bytes) : bytes :=
+  concat (flat_map (fun q => map (rule_reply user db) (filter (rule_matches q) rules)) stmts).
 
-Inductive iresult := IAllow | IReply (b : bytes) | IPanic.
+Inductive iresult := IAllow | IReply (b : bytes).
 
 (** Intercept::run.  [stmts] = sqlparser's re-rendering ([to_string()]) of every
     statement of the message. *)
@@ -243,9 +232,8 @@ Definition intercept_run (enabled : bool) (user db : bytes) (rules : list rule) 
   match stmts with
   | [] => IAllow
   | _ => match intercept_body user db rules stmts with
-         | None => IPanic
-         | Some [] => IAllow
-         | Some b => IReply (b ++ rfq_idle)
+         | [] => IAllow
+         | b => IReply (b ++ rfq_idle)
          end
   end.
 
@@ -260,7 +248,7 @@ Record stmt := mkStmt { st_norm : bytes;                 (* Statement::to_string
 Record plugin_cfg := mkPcfg { ic_present : bool; ic_enabled : bool; ic_rules : list rule;
                               ta_present : bool; ta_enabled : bool; ta_tables : list bytes }.
 
-Inductive pverdict := PAllow | PDeny (msg : bytes) | PIntercept (reply : bytes) | PPanic.
+Inductive pverdict := PAllow | PDeny (msg : bytes) | PIntercept (reply : bytes).
 
 (** QueryRouter::execute_plugins: no [plugins] section => Allow; query_logger has no
     verdict; intercept first (only an Intercept result returns early), then
@@ -270,7 +258,6 @@ Definition execute_plugins (pc : option plugin_cfg) (user db : bytes) (ast : lis
   | None => PAllow
   | Some pc =>
       match (if ic_present pc then intercept_run (ic_enabled pc) user db (ic_rules pc) (map st_norm ast) else IAllow) with
-      | IPanic => PPanic
       | IReply b => PIntercept b
       | IAllow =>
           if ta_present pc then
@@ -346,26 +333,32 @@ Inductive event :=
 | EvCheckout | EvRelease            (* server taken from / returned to the pool *)
 | EvEnd.                            (* handle() returned Err: the client task ends *)
 
+(** A buffered message; for a Bind / Describe(statement) under caching also the Parse its
+    statement name meant WHEN IT ARRIVED (f56a2eb: ExtendedProtocolData metadata). *)
+Definition bitem := (msg * option msg)%type.
+
 Record state := mkState {
   dead : bool;                      (* task ended *)
   held : bool;                      (* inside the transaction loop: a server is checked out *)
   stx : bool;                       (* server.in_transaction() *)
   pout : verdict;                   (* plugin_output (None and Some(Allow) coincide) *)
-  ebuf : list msg;                  (* extended_protocol_data_buffer *)
+  ebuf : list bitem;                (* extended_protocol_data_buffer *)
   ps : list (nat * msg);            (* client prepared_statements: name -> Parse, newest first *)
+  rej : list nat;                   (* rejected_statements: names of Parses of this batch a plugin rejected *)
   srv : list nat                    (* statements the (single) server connection has *)
 }.
 
-Definition init : state := mkState false false false Allow [] [] [].
+Definition init : state := mkState false false false Allow [] [] [] [].
+Definition bmsgs (s : state) : list msg := map fst (ebuf s).
 
-Definition set_pout (s : state) (v : verdict) := mkState (dead s) (held s) (stx s) v (ebuf s) (ps s) (srv s).
-Definition set_ebuf (s : state) (b : list msg) := mkState (dead s) (held s) (stx s) (pout s) b (ps s) (srv s).
-Definition set_ps (s : state) (p : list (nat * msg)) := mkState (dead s) (held s) (stx s) (pout s) (ebuf s) p (srv s).
-Definition set_srv (s : state) (l : list nat) := mkState (dead s) (held s) (stx s) (pout s) (ebuf s) (ps s) l.
-Definition set_held (s : state) (h tx : bool) := mkState (dead s) h tx (pout s) (ebuf s) (ps s) (srv s).
-Definition kill (s : state) := mkState true (held s) (stx s) (pout s) (ebuf s) (ps s) (srv s).
-(** reset_buffered_state + plugin_output = None *)
-Definition consume (s : state) := mkState (dead s) (held s) (stx s) Allow [] (ps s) (srv s).
+Definition set_pout (s : state) (v : verdict) := mkState (dead s) (held s) (stx s) v (ebuf s) (ps s) (rej s) (srv s).
+Definition push (s : state) (b : bitem) := mkState (dead s) (held s) (stx s) (pout s) (ebuf s ++ [b]) (ps s) (rej s) (srv s).
+Definition set_ps (s : state) (p : list (nat * msg)) := mkState (dead s) (held s) (stx s) (pout s) (ebuf s) p (rej s) (srv s).
+Definition set_rej (s : state) (r : list nat) := mkState (dead s) (held s) (stx s) (pout s) (ebuf s) (ps s) r (srv s).
+Definition set_held (s : state) (h tx : bool) := mkState (dead s) h tx (pout s) (ebuf s) (ps s) (rej s) (srv s).
+Definition kill (s : state) := mkState true (held s) (stx s) (pout s) (ebuf s) (ps s) (rej s) (srv s).
+(** after the batch went to the server: the buffer is empty, the server cache updated *)
+Definition drained (s : state) (sv : list nat) := mkState (dead s) (held s) (stx s) (pout s) [] (ps s) (rej s) sv.
 
 Fixpoint lookup (n : nat) (l : list (nat * msg)) : option msg :=
   match l with
@@ -376,34 +369,53 @@ Definition remove_name (n : nat) (l : list (nat * msg)) : list (nat * msg) :=
   filter (fun e => negb (Nat.eqb (fst e) n)) l.
 Definition key_of (m : msg) : nat := match m with MP _ _ k _ _ => k | _ => 0 end.
 Definition has (k : nat) (l : list nat) : bool := existsb (Nat.eqb k) l.
+Definition forget (names : list nat) (l : list (nat * msg)) : list (nat * msg) :=
+  filter (fun e => negb (has (fst e) names)) l.
+
+(** reset_buffered_state (0acefb2): every name a rejected Parse of this batch gave is taken
+    out of the client's map; the buffers are cleared. *)
+Definition reset (s : state) :=
+  mkState (dead s) (held s) (stx s) (pout s) [] (forget (rej s) (ps s)) [] (srv s).
+(** reset_buffered_state + plugin_output = None *)
+Definition consume (s : state) := set_pout (reset s) Allow.
 
 (** buffer_parse / buffer_bind / buffer_describe / Execute / Close: shared by both
     loops (client.rs 'P' 'B' 'D' 'E' 'C' arms).  A Parse runs the plugins when the
     parser is on and accepts the text; the verdict is stored only if no Deny/Intercept
-    of this batch is pending (a verdict on an earlier Parse of this batch stands). *)
+    of this batch is pending (a verdict on an earlier Parse of this batch stands); under
+    caching a rejected Parse's name is noted (note_rejected_parse) and every Parse's name
+    is put into the client's map (buffer_parse).  Bind / Describe(statement) under caching
+    resolve the name now.  A named-statement Close under caching forgets the name now
+    (80b6794). *)
 Definition buffer_msg (c : cfg) (s : state) (m : msg) : state * list event :=
   match m with
   | MP _ name _ parsed v =>
       let s1 := if parser_on c && parsed
                 then (if is_allow (pout s) then set_pout s (plug c v) else s)
                 else s in
-      let s2 := if ps_on c then set_ps s1 ((name, m) :: ps s1) else s1 in
-      (set_ebuf s2 (ebuf s2 ++ [m]), [])
+      let s2 := if ps_on c
+                then set_ps (if bad_msg c m then set_rej s1 (name :: rej s1) else s1) ((name, m) :: ps s1)
+                else s1 in
+      (push s2 (m, None), [])
   | MB _ name =>
       if ps_on c then
         match lookup name (ps s) with
-        | Some _ => (set_ebuf s (ebuf s ++ [m]), [])
+        | Some p => (push s (m, Some p), [])
         | None => (kill s, [EvErr EUnknownStmt; EvEnd])
         end
-      else (set_ebuf s (ebuf s ++ [m]), [])
+      else (push s (m, None), [])
   | MD _ is_stmt name =>
       if ps_on c && is_stmt then
         match lookup name (ps s) with
-        | Some _ => (set_ebuf s (ebuf s ++ [m]), [])
+        | Some p => (push s (m, Some p), [])
         | None => (kill s, [EvErr EUnknownStmt; EvEnd])
         end
-      else (set_ebuf s (ebuf s ++ [m]), [])
-  | ME _ | MC _ _ _ => (set_ebuf s (ebuf s ++ [m]), [])
+      else (push s (m, None), [])
+  | ME _ => (push s (m, None), [])
+  | MC _ is_stmt name =>
+      if ps_on c && is_stmt && negb (Nat.eqb name 0)
+      then (push (set_ps s (remove_name name (ps s))) (m, None), [])
+      else (push s (m, None), [])
   | _ => (s, [])
   end.
 
@@ -414,44 +426,31 @@ Definition after_server (c : cfg) (s : state) (tx : bool) : state * list event :
   else (set_held s true tx, []).
 
 (** The 'S' arm's walk over the buffered messages (plugin_output already checked).
-    Returns the separate early writes (pgcat-initiated Parse + Sync), the batch to send,
-    the updated client map and server cache; [None] in the last component = the walk
-    hit an error ([?]) and the task ends. *)
-Fixpoint drain (c : cfg) (buf : list msg) (pm : list (nat * msg)) (sv : list nat)
-         (early : list event) (acc : list fitem)
-  : list event * list fitem * list (nat * msg) * list nat * bool :=
+    Returns the separate early writes (pgcat-initiated Parse + Sync for a Bind/Describe
+    whose statement the server lacks), the batch to send and the updated server cache. *)
+Fixpoint drain (c : cfg) (buf : list bitem) (sv : list nat) (early : list event) (acc : list fitem)
+  : list event * list fitem * list nat :=
   match buf with
-  | [] => (early, acc, pm, sv, true)
-  | m :: r =>
+  | [] => (early, acc, sv)
+  | (m, meta) :: r =>
       match m with
       | MP _ _ key _ _ =>
           if ps_on c then
-            (if has key sv then drain c r pm sv early acc            (* ParseComplete is synthesised *)
-             else drain c r pm (key :: sv) early (acc ++ [FMsg m]))
-          else drain c r pm sv early (acc ++ [FMsg m])
-      | MB _ name =>
-          if ps_on c then
-            match lookup name pm with
-            | None => (early, acc, pm, sv, false)
-            | Some p =>
-                if has (key_of p) sv then drain c r pm sv early (acc ++ [FMsg m])
-                else drain c r pm (key_of p :: sv) (early ++ [EvFwd [FParse p]]) (acc ++ [FMsg m])
-            end
-          else drain c r pm sv early (acc ++ [FMsg m])
-      | MD _ is_stmt name =>
-          if ps_on c && is_stmt then
-            match lookup name pm with
-            | None => (early, acc, pm, sv, false)
-            | Some p =>
-                if has (key_of p) sv then drain c r pm sv early (acc ++ [FMsg m])
-                else drain c r pm (key_of p :: sv) (early ++ [EvFwd [FParse p]]) (acc ++ [FMsg m])
-            end
-          else drain c r pm sv early (acc ++ [FMsg m])
+            (if has key sv then drain c r sv early acc              (* ParseComplete is synthesised *)
+             else drain c r (key :: sv) early (acc ++ [FMsg m]))
+          else drain c r sv early (acc ++ [FMsg m])
+      | MB _ _ | MD _ _ _ =>
+          match meta with
+          | Some p =>
+              if has (key_of p) sv then drain c r sv early (acc ++ [FMsg m])
+              else drain c r (key_of p :: sv) (early ++ [EvFwd [FParse p]]) (acc ++ [FMsg m])
+          | None => drain c r sv early (acc ++ [FMsg m])
+          end
       | MC _ is_stmt name =>
           if ps_on c && is_stmt && negb (Nat.eqb name 0)
-          then drain c r (remove_name name pm) sv early acc           (* CloseComplete is synthesised *)
-          else drain c r pm sv early (acc ++ [FMsg m])
-      | _ => drain c r pm sv early (acc ++ [FMsg m])
+          then drain c r sv early acc                                (* CloseComplete is synthesised *)
+          else drain c r sv early (acc ++ [FMsg m])
+      | _ => drain c r sv early (acc ++ [FMsg m])
       end
   end.
 
@@ -470,9 +469,8 @@ Definition step_inner (c : cfg) (s : state) (m : msg) : state * list event :=
       | Deny t => (consume s, [EvErr (EPlugin t)])
       | Intercept t => (consume s, [EvIntercept t])
       | Allow =>
-          let '(early, acc, pm, sv, ok) := drain c (ebuf s) (ps s) (srv s) [] [] in
-          let s1 := set_srv (set_ps (set_ebuf s []) pm) sv in
-          if negb ok then (kill s1, early ++ [EvEnd]) else
+          let '(early, acc, sv) := drain c (ebuf s) (srv s) [] [] in
+          let s1 := drained s sv in
           match acc with
           | [] => let '(s2, ev) := after_server c s1 (stx s1) in (s2, early ++ ev)   (* only Sync left: not sent *)
           | _ => let '(s2, ev) := after_server c s1 tx in (s2, early ++ EvFwd (acc ++ [FMsg m]) :: ev)
@@ -487,11 +485,12 @@ Definition pool_ok_of (m : msg) : bool :=
 
 (** Outer loop after the match: the check on plugin results acts on Deny for every
     message and (since a7d476c) on Intercept for a Sync, both BEFORE the checkout; then
-    the checkout; then the message is handled by the transaction loop. *)
+    the checkout (a failed one at a Sync calls reset_buffered_state); then the message is
+    handled by the transaction loop. *)
 Definition outer_checkout (c : cfg) (s : state) (m : msg) : state * list event :=
   if pool_ok_of m then
     let '(s', ev) := step_inner c (set_held s true false) m in (s', EvCheckout :: ev)
-  else ((if is_sync m then set_ebuf s [] else s), [EvErr EPool]).
+  else ((if is_sync m then reset s else s), [EvErr EPool]).
 
 Definition outer_rest (c : cfg) (s : state) (m : msg) : state * list event :=
   match pout s with
